@@ -19,13 +19,16 @@ case = (backend, timed, parts, stages, draws, jobs)
 result = ([(events, value) per job], cache_obj as [((stage position, partition), data)], stamped idents)
 """
 import atexit
+import glob
 import itertools
+import json
 import math
 import operator
+import os
 import pickle
 import random
 
-from common.coqlit import Err
+from common.coqlit import Err, uncanon
 import pysparkling
 import pysparkling.rdd as rdd_module
 from pysparkling.cache_manager import TimedCacheManager
@@ -47,7 +50,7 @@ SHARD = 150
 
 RULE = ('cases (backend, cache manager kind, source partitions, lineage of map/filter/flatMap, persist() and seeded '
         'sample() stages, 1-3 successive jobs each with an action, a depth in the lineage and a schedule): every schedule '
-        'up to a length bound for 2 and 3 tasks on the basic persisted lineages (first job and later job), all complete '
+        'up to a length bound (7/11 grants for 2 tasks, 4/7 for 3 tasks, quick/thorough) on the basic persisted lineages (first job and later job), all complete '
         'interleavings of 2 tasks, random long schedules for 2-4 tasks on random lineages, each on the traced-thread pool '
         'with shared objects and with pickled copies; the same lineages on DummyPool, ThreadPoolExecutor, '
         'multiprocessing.Pool and ProcessPoolExecutor with cloudpickle and dill. Compared with the model per case: the '
@@ -450,9 +453,15 @@ def generate(rng, tier):
     cases = []
     have = available_backends()
     sched_backends = [b for b in (0, 1) if b in have]
+    # -- corpus: the minimal inputs on which the repaired defects (and the mutation self-test) showed -------
+    root = os.environ.get('VERIF_ROOT', '/verif')
+    for path in sorted(glob.glob(os.path.join(root, 'corpus', 'C03', '*.json'))):
+        c = uncanon(json.load(open(path))['case'])
+        if c[0] in have:
+            cases.append(mk(c[0], c[1], c[2], c[3], c[5]))   # draws are regenerated
     # -- the canonical two-job program of the property text, under every schedule prefix --------------
     two, three = [[0, 1], [2, 3]], [[0], [1, 2], [3]]
-    l2, l3 = (8, 5) if quick else (11, 7)
+    l2, l3 = (7, 4) if quick else (11, 7)
     for s in all_schedules(2, l2):
         # job 1 under s; job 2 (all hits) under the mirrored schedule
         cases.append(mk(0, 0, two, [(1,)], [(1, 1, 0, s), (1, 1, 0, [1 - t for t in s])]))
@@ -471,17 +480,17 @@ def generate(rng, tier):
     else:
         srng = random.Random(rng.random())
         pool7 = list(interleavings([7, 7]))
-        for s in srng.sample(pool7, 150):
+        for s in srng.sample(pool7, 100):
             cases.append(mk(0, 0, two, [(1,)], [(1, 1, 0, s), (1, 1, 0, s[::-1])]))
-        for s in srng.sample(list(interleavings([6, 6])), 60):
+        for s in srng.sample(list(interleavings([6, 6])), 40):
             cases.append(mk(0, 0, two, [(2, 5, 0, 0.5)], [(1, 1, 0, s)]))
             cases.append(mk(0, 0, two, [(2, 9, 1, 1.5, math.exp(-1.5))], [(1, 1, 0, s)]))
     # pickled copies: the same canonical program, shorter bound
     if 1 in have:
-        for s in all_schedules(2, 5 if quick else 8):
+        for s in all_schedules(2, 4 if quick else 8):
             cases.append(mk(1, 0, two, [(1,)], [(1, 1, 0, s), (1, 1, 0, s[::-1])]))
     # -- random lineages, random long schedules ---------------------------------------------------------
-    for _ in range(350 if quick else 6000):
+    for _ in range(300 if quick else 5000):
         parts = random_parts(rng)
         stages = random_stages(rng)
         jobs = random_jobs(rng, len(parts), len(stages), 60)
@@ -613,7 +622,7 @@ _EXTRA = {'programs': 0, 'backend_runs': 0}
 
 
 def extra_checks(rng, tier, workdir):  # pylint: disable=unused-argument
-    n = 20 if tier == 'quick' else 300
+    n = 12 if tier == 'quick' else 150
     have = [b for b in available_backends() if b != 2]
     for _ in range(n):
         spec = _free_spec(rng)
